@@ -85,7 +85,12 @@ def get_arguments(n) -> list[tuple[str, type]]:
     :param n: production
     :return: list((argname, argtype))
     """
-    if hasattr(n, "__init__"):
+    from geneticengine.solutions.tree import GengyList  # local import: solutions.tree imports this module
+
+    if isinstance(n, GengyList):
+        # the "arguments" of a list are its elements (every instance has an __init__, so test this first)
+        return [(f"{i}", n.typ) for i in range(len(n))]
+    elif hasattr(n, "__init__"):
         init = n.__init__
         import sys
 
@@ -95,8 +100,6 @@ def get_arguments(n) -> list[tuple[str, type]]:
             include_extras=True,
         )
         return [(a, args[a]) for a in filter(lambda x: x != "return", args)]
-    elif isinstance(n, GengyList):
-        return [(f"{i}", n.typ) for i in range(len(n))]
     return []
 
 
